@@ -1365,10 +1365,12 @@ def _worker(job):
                     inputs3 = near + small_inputs("".join(chars) or "a", 4 if tier == "thorough" else 3) + ["ab1", "abc", "aBc", "1a", "\n", "\r\n", "ba b"]
                 signal.alarm(120)
                 try:
-                    starts_ = [n for n in ("r", "r2", "r3", "r4", "SKIP") if n in rules]
+                    starts_ = [n for n in ("r", "r0", "r2", "r3", "r4", "SKIP") if n in rules]
                     ins_ = inputs3
                     if kind == "skip" and (len(starts_) > 1 or "WHITESPACE" in rules):
                         ins_ = inputs3[: len(inputs3) // 2] + small_inputs("abc ", 4) + small_inputs("ab ", 5)
+                        if "r0" in rules:
+                            ins_ = ins_ + ["[" + t for t in small_inputs("ab ]", 4)]
                     eval_grammar(prop, rng, "opt-template:" + kind, gtext, rules, choose_passes(rng, rng.randrange(3)),
                                  [(st_, t, (0 if prop != "C16" else rng.randint(0, len(t)))) for st_ in starts_ for t in ins_], out)
                     out["stats"]["opt_template_grammars"] += 1
